@@ -15,7 +15,7 @@ Concrete support (labelled so in the evidence):
 """
 PROPERTY = 'C06'
 LEVEL = 'model_checking'
-BUDGET_S = {'quick': 900, 'thorough': 5400}
+BUDGET_S = {'quick': 3600, 'thorough': 14400}
 
 W = 160
 
